@@ -193,8 +193,18 @@ def d4_6(ctx):
     ctx.check(ok, ckey(drv.key, "writers:connection_size"), writers[0][1] if writers else drv.node, f"only the fallback writes the size ({writers[0][2] if writers else None} fits 9 bits)",
               f"connection_size writers: {[(w[0].qualname, w[2]) for w in writers]}; expected only the standard-Forward-Open fallback with a value <= {sp['size_mask_16']}", writers=[(w[0].qualname, str(w[2])) for w in writers])
     prop = drv.methods.get("connection_size")
-    ok = prop is not None and any(isinstance(r, ast.Return) and src(r.value).replace('"', "'") == "self._cfg['connection_size']" for r in walk(prop))
-    ctx.check(ok, ckey(drv.key + ".connection_size"), prop or drv.node, "the size used by the builders is the negotiated configuration value", "connection_size no longer returns the negotiated _cfg value")
+    if prop is None:
+        ctx.violation(ckey(drv.key + ".connection_size"), drv.node, "connection_size no longer returns the negotiated _cfg value")
+    else:
+        # folded on two witness configurations (an earlier form compared the source text of the return expression)
+        from ..miniinterp import Obj, fold_method
+
+        got = [fold_method(ctx, Obj(_ci=drv, _cfg={"connection_size": v_, "extended forward open": True}), "connection_size") for v_ in (1234, 500)]
+        if any(k_ == "unknown" for k_, _ in got):
+            ctx.undecided(ckey(drv.key + ".connection_size"), prop, f"connection_size not foldable: {[r_ for k_, r_ in got if k_ == 'unknown'][0]}")
+        else:
+            ctx.check(got == [("return", 1234), ("return", 500)], ckey(drv.key + ".connection_size"), prop, "the size used by the builders is the negotiated configuration value",
+                      f"connection_size gives {got!r} for configured sizes 1234 and 500: it no longer returns the negotiated _cfg value")
     lxm = ctx.model.cls(f"{LX}:LogixDriver")
     lits = []
     for b in BUILDERS + ("_send_write_fragmented",):
